@@ -8,5 +8,6 @@ python3 tools/extract_facts.py >/dev/null 2>&1 || true
 (cd coq && coq_makefile -f _CoqProject -o Makefile >/dev/null && make -j16 >/dev/null)
 (cd ocaml && coqc -Q ../coq MRB ../coq/Extract/Extract.v >/dev/null && ocamlfind ocamlopt -O2 -w -a model.mli model.ml driver.ml -o model && ocamlfind ocamlopt -O2 -w -a model.mli model.ml concdriver.ml -o concmodel && coqc -Q ../coq MRB ../coq/Extract/ExtractConc.v >/dev/null && ocamlfind ocamlopt -O2 -w -a cmodel.mli cmodel.ml concdriver2.ml -o concmodel2 && coqc -Q ../coq MRB ../coq/Extract/ExtractDrop.v >/dev/null && ocamlfind ocamlopt -O2 -w -a dmodel.mli dmodel.ml dropdriver.ml -o dropmodel && coqc -Q ../coq MRB ../coq/Extract/ExtractConc3x.v >/dev/null && ocamlfind ocamlopt -O2 -w -a c3xmodel.mli c3xmodel.ml concdriver3x.ml -o concmodel3x)
 (cd harness && CARGO_TARGET_DIR=../.build/cargo cargo build --offline --bins 2>&1 | tail -2)
+(cd harness && CARGO_TARGET_DIR=../.build/cargo cargo build --offline --profile nodebug --bin seqrun --bin asyncrun 2>&1 | tail -1)
 (cd harness-noalloc && CARGO_TARGET_DIR=../.build/cargo-noalloc cargo build --offline 2>&1 | tail -1)
 echo setup done
